@@ -260,3 +260,4 @@ func TestZZVerifSizes(t *testing.T) {
 		t.Fail()
 	}
 }
+
